@@ -8,6 +8,7 @@ import (
 	"math/rand"
 	"net"
 	"os"
+	"sort"
 	"strings"
 	"sync"
 	"sync/atomic"
@@ -242,9 +243,10 @@ var c19Maps = []mbMapSpec{
 
 func runC19(tier string, _ []string) int {
 	c := vlib.NewCtx("C19", tier, "exploration")
-	c.SetRule("real modbus.Client <-> real modbus.Server.Listen over (a) RTU framing on a packet-preserving in-memory duplex and (b) TCP framing on net.Pipe; 4 register maps with PRNG contents; every client method (ReadCoils, ReadDiscreteInputs, ReadHoldingRegs, ReadInputRegs, WriteSingleCoil, WriteSingleReg) x addresses (map edges, unmapped, 0xFFFF) x counts 1..largest fitting the client's 200-byte frame (success required, values and number of values compared with the server's registers) and beyond up to the protocol maximum on fresh pairs (error or correct values, never wrong ones) x unit ids; write then read back through the client and directly from the register file; a man-in-the-middle alters responses: 1-bit / 2-bit / <=16-bit-burst CRC damage (RTU), truncation at every length, wrong transaction id (TCP) => the call must fail; a withheld reply delivered late (TCP) must not answer the next request; 70000 consecutive TCP transactions (id wrap); conversions: all 2^16 register values, sampled 32-bit patterns incl. NaNs, both word orders, bit-exact in both directions. conversions of 2-6 element slices element by element; one client/server pair talks RTU over a byte-stream line read through respreader (100 ms / 20 ms, as node/modbus.go): plain traffic, then replies that arrive 0.4 s late (two in a row; one of 205 bytes) followed by 0.8 s of silence - the next request must get its own answer; one TCP connection stays idle for 30 s (over a hundred rounds of read timeout + back-off in the server) and must then be served as before. distinct = (transport, method, count class, outcome) Finally several masters on one register file: 3-6 client/server pairs (TCP and RTU) share one modbus.Regs; every connection writes coils only it owns (interleaved with the other connections' coils inside the same 16-bit registers) and its own register, reads each back after the acknowledgement and all are compared at rest.")
+	c.SetRule("real modbus.Client <-> real modbus.Server.Listen over (a) RTU framing on a packet-preserving in-memory duplex and (b) TCP framing on net.Pipe; 4 register maps with PRNG contents; every client method (ReadCoils, ReadDiscreteInputs, ReadHoldingRegs, ReadInputRegs, WriteSingleCoil, WriteSingleReg) x addresses (map edges, unmapped, 0xFFFF) x counts 1..largest fitting the client's 200-byte frame (success required, values and number of values compared with the server's registers) and beyond up to the protocol maximum on fresh pairs (error or correct values, never wrong ones) x unit ids; write then read back through the client and directly from the register file; a man-in-the-middle alters responses: 1-bit / 2-bit / <=16-bit-burst CRC damage (RTU), truncation at every length, wrong transaction id (TCP) => the call must fail; a withheld reply delivered late (TCP) must not answer the next request; 70000 consecutive TCP transactions (id wrap); conversions: all 2^16 register values, sampled 32-bit patterns incl. NaNs, both word orders, bit-exact in both directions. conversions of 2-6 element slices element by element; one client/server pair talks RTU over a byte-stream line read through respreader (100 ms / 20 ms, as node/modbus.go): plain traffic, then replies that arrive 0.4 s late (two in a row; one of 205 bytes) followed by 0.8 s of silence - the next request must get its own answer; a TCPServer with 2-4 open connections is closed and replaced on its port by one with another register file: what an old connection returns afterwards is an error or what the running server holds; the register file is extended while in use by registering existing registers and coils again; one TCP connection stays idle for 30 s (over a hundred rounds of read timeout + back-off in the server) and must then be served as before. distinct = (transport, method, count class, outcome) Finally several masters on one register file: 3-6 client/server pairs (TCP and RTU) share one modbus.Regs; every connection writes coils only it owns (interleaved with the other connections' coils inside the same 16-bit registers) and its own register, reads each back after the acknowledgement and all are compared at rest.")
 	c.Assume("the in-memory duplex delivers whole packets (as respreader does on a serial line); reads time out after 150 ms")
 	wd := c.NewWatchdog()
+	vlib.SetPortBlock(19)
 	nPairs := c.N(24, 400)
 	callsPer := c.N(340, 1000)
 
@@ -321,6 +323,30 @@ func runC19(tier string, _ []string) int {
 			return a & 0xffff
 		}
 		for k := 0; k < callsPer; k++ {
+			if k%40 == 33 && len(l.model.regs) > 0 {
+				// the application registers IO that overlaps what is there already (a 32-bit value over two
+				// existing registers, a second coil in an existing register): what is there stays as it is
+				var mapped []int
+				for a := range l.model.regs {
+					mapped = append(mapped, int(a))
+				}
+				sort.Ints(mapped)
+				a0 := mapped[r.Intn(len(mapped))]
+				if r.Chance(0.5) {
+					n := 1 + r.Intn(2)
+					if a0+n <= 0x10000 {
+						l.regs.AddReg(a0, n)
+						for q := 0; q < n; q++ {
+							if _, ok := l.model.regs[uint16(a0+q)]; !ok {
+								l.model.regs[uint16(a0+q)] = 0
+							}
+						}
+					}
+				} else {
+					l.regs.AddCoil(a0*16 + r.Intn(16))
+				}
+				c.Count("registers_registered_again", 1)
+			}
 			if kind == "tcp" && k%40 == 20 {
 				// a reply that arrives after the client gave up must not be taken for the answer to the next request
 				var mapped []int
@@ -869,6 +895,12 @@ func runC19(tier string, _ []string) int {
 		}
 		c.Count("shared_register_file_runs", 1)
 		c.Distinct(fmt.Sprintf("shared register file, %d connections", nCl))
+	}
+	for round := 0; round < 4 && !vlib.Aborted(); round++ {
+		if sg, w := c19ServerReplaced(c, round); sg != "" {
+			c.Violate(sg, w, map[string]any{"seed": c.Seed, "stage": "TCP server replaced under open connections", "round": round})
+			break
+		}
 	}
 	if res := <-lineRes; res[0] != "" {
 		c.Violate(res[0], res[1], map[string]any{"seed": c.Seed, "stage": "serial line through respreader"})
